@@ -7,6 +7,7 @@ package main
 import (
 	"fmt"
 	"strings"
+	"sync"
 
 	"github.com/openacid/low/bitmap"
 )
@@ -55,16 +56,34 @@ func (h *c01Held) rebuild() {
 	h.flip = !h.flip
 }
 
-// c01Expand expands [[count, word], ...]
+// c01Expand expands [[count, word], ...] into a WINDOW of a longer array whose 3 spare words hold junk (a bitmap
+// that is a prefix of a reused buffer): code that reads or writes words[len:cap] shows
 func c01Expand(v V) []uint64 {
-	var ws []uint64
+	n := 0
 	for _, r := range v.L {
-		n, w := r.L[0].Int(), r.L[1].U64()
-		for k := 0; k < n; k++ {
-			ws = append(ws, w)
+		n += r.L[0].Int()
+	}
+	full := make([]uint64, n+3)
+	k := 0
+	for _, r := range v.L {
+		c, w := r.L[0].Int(), r.L[1].U64()
+		for j := 0; j < c; j++ {
+			full[k] = w
+			k++
 		}
 	}
-	return ws
+	full[n], full[n+1], full[n+2] = 0xa5a5a5a5a5a5a5a5, ^uint64(0), 0x5a5a5a5a5a5a5a5b
+	return full[:n]
+}
+
+func c01Index(ws []uint64, f int) []int32 {
+	switch f {
+	case 0:
+		return bitmap.IndexRank64(ws)
+	case 1:
+		return bitmap.IndexRank64(ws, true)
+	}
+	return bitmap.IndexRank128(ws)
 }
 
 type c01Run struct {
@@ -143,6 +162,89 @@ func init() {
 			cs[k] = ^w
 		}
 		return L(c01Query(ws, a[1].Int(), a[2].I32()), c01Query(cs, a[1].Int(), a[2].I32()))
+	}
+	// session: every returned index is rendered, used for one query, and then overwritten with junk by the caller
+	Exec["bitmap.IndexRank/session"] = func(a []V) string {
+		var bms [][]uint64
+		for _, st := range a[0].L {
+			bms = append(bms, c01Expand(st.L[1]))
+		}
+		var out []string
+		for rep := 0; rep < a[1].Int(); rep++ {
+			for k, st := range a[0].L {
+				f, ws := st.L[0].Int(), bms[k]
+				idx := c01Index(ws, f)
+				txt := I32s(idx)
+				q := try(func() string {
+					var c, b int32
+					i := int32(64*len(ws) - 1)
+					if f == 2 {
+						c, b = bitmap.Rank128(ws, idx, i)
+					} else {
+						c, b = bitmap.Rank64(ws, idx, i)
+					}
+					return L(I32(c), I32(b))
+				})
+				for j := range idx {
+					idx[j] = int32(0x5a5a5a5a ^ j)
+				}
+				out = append(out, L(txt, q))
+			}
+		}
+		return L(out...)
+	}
+	// concurrent: a single caller first, then rounds of g goroutines released together, goroutine j on bitmap j mod n
+	Exec["bitmap.IndexRank64/concurrent"] = func(a []V) string {
+		var bms [][]uint64
+		for _, b := range a[0].L {
+			bms = append(bms, c01Expand(b))
+		}
+		tr, stride, ncalls := a[1].Bool(), a[2].Int(), a[3].Int()
+		var seq [][]int32
+		var samples []string
+		for _, ws := range bms {
+			idx := bitmap.IndexRank64(ws, tr)
+			seq = append(seq, idx)
+			var sm []int32
+			for k := 0; k < len(idx); k += stride {
+				sm = append(sm, idx[k])
+			}
+			if len(idx) > 0 {
+				sm = append(sm, idx[len(idx)-1])
+			} else {
+				sm = append(sm, 0)
+			}
+			samples = append(samples, I32s(sm))
+		}
+		g := 2
+		if ncalls%4 == 0 {
+			g = 4
+		} else if ncalls%3 == 0 {
+			g = 3
+		}
+		flags := make([]int32, ncalls)
+		for done := 0; done < ncalls; done += g {
+			start := make(chan struct{})
+			var wg sync.WaitGroup
+			for j := 0; j < g && done+j < ncalls; j++ {
+				wg.Add(1)
+				go func(slot, k int) {
+					defer wg.Done()
+					<-start
+					idx := bitmap.IndexRank64(bms[k], tr)
+					ok := len(idx) == len(seq[k])
+					for x := 0; ok && x < len(idx); x++ {
+						ok = idx[x] == seq[k][x]
+					}
+					if ok {
+						flags[slot] = 1
+					}
+				}(done+j, (done+j)%len(bms))
+			}
+			close(start)
+			wg.Wait()
+		}
+		return L(L(samples...), I32s(flags))
 	}
 	Exec["bitmap.IndexRank/rle"] = func(a []V) string {
 		ws := c01Expand(a[0])
@@ -616,6 +718,59 @@ func genC01Wide(g *Gen) {
 		}
 		g.Stat("history-edit-middle")
 		g.Do("bitmap.Rank/history", L(L(U64s(ws)), L(steps...)), fmt.Sprintf("edit/n%d/edits%d", minInt(n, 6), ne))
+	}
+	// (W9) sessions: many index builds in ONE process, small bitmaps (0, 1, 2.. words) after large ones whose length
+	// sits next to a size threshold (chunked / parallel / unrolled paths), every returned index overwritten by the
+	// caller; two passes over the same list
+	sstep := func(f int, runs []c01Run) string {
+		txt, _ := c01Rle(runs)
+		return L(Int(f), txt)
+	}
+	bigRuns := func(n int) []c01Run {
+		// non-empty from the first word on, a zero stretch, a tail that ends in a non-empty last word
+		a := n / 3
+		return []c01Run{{1, g.R.Word() | 1}, {a, []uint64{1, 0x8000000000000001, ^uint64(0)}[g.R.Intn(3)]}, {n - a - 2, g.R.Word() & 0xff00ff}, {1, g.R.Word() | 1<<63}}
+	}
+	sizes := []int{1025, 3073, 4097, 6145}
+	if g.Thorough {
+		sizes = []int{255, 256, 257, 1023, 1024, 1025, 2047, 2049, 3071, 3072, 3073, 3074, 4095, 4096, 4097, 6143, 6144, 6145, 6146, 9217, 12289}
+	}
+	for _, n := range sizes {
+		for _, f := range []int{1, 2} {
+			small := []string{sstep(f, nil), sstep(f, []c01Run{{1, g.R.Word() | 2}}), sstep(2, nil), sstep(2, []c01Run{{1, 6}}), sstep(1, []c01Run{{2, 3}})}
+			steps := append([]string{sstep(f, bigRuns(n))}, small...)
+			g.Stat("session-threshold")
+			g.Do("bitmap.IndexRank/session", L(L(steps...), "2"), fmt.Sprintf("session/big%d/f%d", n, f))
+		}
+	}
+	for k := 0; k < g.N(60, 1200); k++ {
+		var steps []string
+		for q := 0; q < g.R.Range(3, 9); q++ {
+			n := g.R.Pick(0, 0, 1, 1, 2, 3, 4, 5, 7)
+			var runs []c01Run
+			for x := 0; x < n; x++ {
+				runs = append(runs, c01Run{1, g.R.Word()})
+			}
+			steps = append(steps, sstep(g.R.Intn(3), runs))
+		}
+		g.Stat("session-small")
+		g.Do("bitmap.IndexRank/session", L(L(steps...), "2"), "session/small")
+	}
+
+	// (W10) concurrent builds of LARGE bitmaps (2^17+3 words and more: a megabyte of words each), 2..4 goroutines
+	// released together, several rounds; every concurrent result must equal the single caller's
+	conc := func(n1, n2 int, tr bool, ncalls int) {
+		t1, _ := c01Rle([]c01Run{{1, 5}, {n1/2 - 1, 1}, {n1 / 4, 0}, {n1 - n1/2 - n1/4 - 1, 0xff}, {1, g.R.Word() | 1}})
+		t2, _ := c01Rle([]c01Run{{n2 / 8, ^uint64(0)}, {n2 / 8, 0}, {n2 - 2*(n2/8) - 2, 0x10001}, {2, g.R.Word() | 2}})
+		g.Stat("concurrent-large")
+		g.Do("bitmap.IndexRank64/concurrent", L(L(t1, t2), B(tr), "1024", Int(ncalls)), fmt.Sprintf("conc/n%d/tr%v/calls%d", n1, tr, ncalls))
+	}
+	conc(1<<17+3, 1<<17+3, true, 18)
+	if g.Thorough {
+		conc(1<<17, 1<<17+1, false, 16)
+		conc(1<<18+1, 1<<17+3, true, 10)
+		conc(1<<17+3, 1<<17+3, false, 21)
+		conc(1<<16, 1<<16+3, true, 12)
 	}
 	_ = strings.Join
 }
